@@ -336,6 +336,14 @@ def _ncols(a):
     return len(a.self.snap["cols"]["ids"])
 
 
+def _empty_row(view):
+    if isinstance(view, (VaultView, WrapView)):
+        return PL_EMPTY_ROW
+    from odfdo.row import Row
+    from pyvc.xmlnative import lx, payload
+    return payload(lx(Row()), "rows")
+
+
 def _app_row_req(a):
     return S.And(inv_vault(a.self, "rows"), inv_vault(a.self, "cols"), width_ok(a.self), disjoint(a.self),
                  S.Or(a.row is None, lambda: S.And(detached(a.self, "rows", a.row), exists_before(a.row),
@@ -343,7 +351,7 @@ def _app_row_req(a):
 
 
 def _row_pl(a):
-    return PL_EMPTY_ROW if a.row is None else a.row.pl
+    return _empty_row(a.self) if a.row is None else a.row.pl
 
 
 def _row_rep(a):
@@ -389,7 +397,7 @@ def _set_row_view(a, r, p):
     h0 = vlen(a.self, "rows")
     rep, pl, y = _row_rep(a), _row_pl(a), a.y
     return pointwise(a.self, p.self, "rows",
-                     lambda pos, old, len0: S.If(S.And(y <= pos, pos < y + rep), pl, S.If(pos < h0, old, PL_EMPTY_ROW)))
+                     lambda pos, old, len0: S.If(S.And(y <= pos, pos < y + rep), pl, S.If(pos < h0, old, _empty_row(a.self))))
 
 
 contract(
@@ -412,7 +420,7 @@ def _ins_row_view(a, r, p):
     rep, pl, y = _row_rep(a), _row_pl(a), a.y
     return pointwise(a.self, p.self, "rows",
                      lambda pos, old, len0: S.If(S.And(y <= pos, pos < y + rep), pl,
-                                                 S.If(S.And(pos >= h0, y >= h0), PL_EMPTY_ROW, old)),
+                                                 S.If(S.And(pos >= h0, y >= h0), _empty_row(a.self), old)),
                      src=lambda pos: S.If(S.Or(pos < y, y >= h0), pos, pos - rep))
 
 
@@ -454,4 +462,56 @@ contract(
         S.Implies(S.And(a.y < 0, vlen(a.self, "rows") > 0), lambda: r < vlen(a.self, "rows"))))],
     result=Int, concretize=concretize_vault, gen=gen_vault,
     observer=True,
+)
+
+
+# ------------------------------------------------------------------ row getters (C08)
+_GET_REQ = lambda a: S.And(inv_vault(a.self, "rows"), inv_vault(a.self, "cols"), a.y >= 0)  # noqa: E731
+_FRAME = lambda a, r, p: S.And(_xml_unchanged(a.self, p.self, "rows"), _map_unchanged(a.self, p.self, "_tmap"),  # noqa: E731
+                               _xml_unchanged(a.self, p.self, "cols"), _map_unchanged(a.self, p.self, "_cmap"))
+
+contract(
+    "odfdo.table:Table._get_row2_base",
+    sig=dict(self=_table(), y=Int),
+    requires=_GET_REQ,
+    ensures=[
+        Clause("none-outside", {"C08"}, lambda a, r, p: S.Iff(r is None, a.y >= vlen(a.self, "rows"))),
+        Clause("content", {"C08", "C01", "C02"}, lambda a, r, p: S.Or(r is None, lambda: _content_is(a.self, "_tmap", a.y, r.pl))),
+        Clause("frame", {"C08", "C15"}, _FRAME),
+        Clause("inv", P_T, lambda a, r, p: S.And(inv_vault(p.self, "rows"), inv_vault(p.self, "cols"))),
+    ],
+    concretize=concretize_vault, gen=gen_vault,
+)
+
+
+contract(
+    "odfdo.table:Table._get_row2",
+    sig=dict(self=_table(), y=Int, clone=Bool, create=Const(True)),
+    requires=_GET_REQ,
+    inline={"odfdo.table:Table._get_row2_base"},
+    ensures=[
+        Clause("content", {"C08", "C01", "C02"}, lambda a, r, p: S.If(
+            a.y >= vlen(a.self, "rows"), lambda: r.pl == _empty_row(a.self), lambda: _content_is(a.self, "_tmap", a.y, r.pl))),
+        Clause("detached-copy", {"C08", "C10"}, lambda a, r, p: S.Implies(
+            S.Or(a.clone, a.y >= vlen(a.self, "rows")), lambda: is_fresh(r, a.self))),
+        Clause("frame", {"C08", "C15"}, _FRAME),
+        Clause("inv", P_T, lambda a, r, p: S.And(inv_vault(p.self, "rows"), inv_vault(p.self, "cols"))),
+    ],
+    concretize=concretize_vault, gen=gen_vault,
+)
+
+contract(
+    "odfdo.table:Table.get_row",
+    sig=dict(self=_table(), y=Int, clone=Bool, create=Const(True)),
+    requires=_GET_REQ,
+    inline={"odfdo.table:Table._get_row2_base", "odfdo.table:Table._get_row2"},
+    ensures=[
+        Clause("content", {"C08", "C01", "C02"}, lambda a, r, p: S.If(
+            a.y >= vlen(a.self, "rows"), lambda: r.pl == _empty_row(a.self), lambda: _content_is(a.self, "_tmap", a.y, r.pl))),
+        Clause("stamp", {"C08"}, lambda a, r, p: S.same_or_eq(r.y, a.y)),
+        Clause("detached-copy", {"C08", "C10"}, lambda a, r, p: S.Implies(
+            S.Or(a.clone, a.y >= vlen(a.self, "rows")), lambda: is_fresh(r, a.self))),
+        Clause("frame", {"C08", "C15"}, _FRAME),
+    ],
+    concretize=concretize_vault, gen=gen_vault,
 )
